@@ -32,7 +32,7 @@ ASSUMPTIONS = [
 ]
 OBLIGATIONS = {"dscore:m=1": 20, "dscore:m>=2": 50, "dscore:perfect": 20,
                "dscore:inverse": 20, "dscore:heavy-ties": 20,
-               "dscore:identical-ens": 10, "dscore:wide-range": 20, "dscore:fine-lattice": 10, "eps:non-default": 20, "ad:near-duplicates": 10, "ensrank:ref": 50, "pit:random": 30,
+               "dscore:identical-ens": 10, "dscore:wide-range": 20, "dscore:fine-lattice": 10, "eps:non-default": 20, "ad:near-duplicates": 10, "ad:reject:several-outside": 10, "ensrank:ref": 50, "pit:random": 30,
                "pit:plain": 30, "pit:sudo": 30, "cvm": 50, "ad": 50, "ad:reject": 30,
                "alpha": 20, "n=1-sample": 5}
 
@@ -470,6 +470,18 @@ def run(ctx):
         j = int(rng.integers(0, nn))
         bad[j] = [1.0 + 1e-9, -1e-9, 1.5, -0.5, np.nan, np.inf, -np.inf][it % 7]
         run_reject_case(ctx, {"kind": "reject", "u": bad})
+        if nn >= 2 and it % 3 == 0:
+            # several values outside, on both sides in equal or unequal numbers, or all
+            bad2 = u.copy()
+            k = int(rng.integers(1, max(2, nn // 2 + 1)))
+            pos = rng.permutation(nn)
+            bad2[pos[:k]] = -rng.uniform(0.01, 3.0, size=k)
+            k2 = [k, max(1, k - 1), 0][it % 9 // 3]
+            k2 = min(k2, nn - k)
+            if k2:
+                bad2[pos[k:k + k2]] = 1 + rng.uniform(0.01, 3.0, size=k2)
+            ctx.tag("ad:reject:several-outside")
+            run_reject_case(ctx, {"kind": "reject", "u": bad2})
         if it % 4 == 0:
             n2 = int(rng.integers(5, 60))
             m2 = int(rng.integers(1, 20))
